@@ -24,10 +24,25 @@ V = "/verif"
 REPO = "/repo"
 BUILD = f"{V}/build"
 FORBIDDEN = re.compile(
-    r"\b(Admitted|admit|Axiom|Axioms|Parameter|Parameters|Conjecture|Hypothesis|"
+    r"\b(Admitted|admit|Axiom|Axioms|Parameter|Parameters|Conjecture|Conjectures|"
     r"Admit Obligations|Unset Guard Checking|bypass_check|type-in-type|"
     r"impredicative-set|Unset Universe Checking|Unset Positivity Checking)\b"
 )
+SECTION_ONLY = re.compile(r"^\s*(Hypothesis|Hypotheses|Variable|Variables)\b")
+
+
+def lint_coq(body: str):
+    """Forbidden declarations: axioms & co anywhere; Variable/Hypothesis outside a section."""
+    hits = [m.group(0) for m in FORBIDDEN.finditer(body)]
+    depth = 0
+    for line in body.splitlines():
+        if re.match(r"^\s*Section\s+\w+\s*\.", line):
+            depth += 1
+        elif re.match(r"^\s*End\s+\w+\s*\.", line) and depth > 0:
+            depth -= 1
+        elif depth == 0 and SECTION_ONLY.match(line):
+            hits.append(line.strip()[:40] + " (outside a section)")
+    return hits
 
 
 def _big_stack():
@@ -146,9 +161,8 @@ class Check:
             for fn in files:
                 if fn.endswith(".v"):
                     body = _strip_comments(open(os.path.join(root, fn)).read())
-                    for m in FORBIDDEN.finditer(body):
-                        # Hypothesis / Parameter are fine inside sections only; we ban them outright
-                        hits.append(f"{os.path.relpath(os.path.join(root, fn), V)}:{m.group(0)}")
+                    for h in lint_coq(body):
+                        hits.append(f"{os.path.relpath(os.path.join(root, fn), V)}:{h}")
         self.coverage["lint_hits"] = hits
         cmd = ["timeout", "600", "coqc", "-Q", ".", "RLV", props_file]
         self.checker_cmd = f"cd {V}/coq && make (full .vo build) && " + " ".join(cmd[2:])
@@ -198,9 +212,10 @@ class Check:
                     f.write(f"let () = out (try {e} with Failure m -> \"{{\\\"ocaml_failure\\\":\\\"\" ^ m ^ \"\\\"}}\")\n")
             exe = f"{self.rundir}/{name}.exe"
             c = subprocess.run(
-                ["ocamlfind", "ocamlopt", "-package", "zarith", "-linkpkg", "-w", "-a",
+                ["bash", "-c", 'ulimit -s unlimited 2>/dev/null; exec "$@"', "sh",
+                 "ocamlfind", "ocamlopt", "-package", "zarith", "-linkpkg", "-w", "-a",
                  "-I", f"{BUILD}/ocaml", f"{BUILD}/ocaml/model.cmx", f"{BUILD}/ocaml/prelude.cmx", path, "-o", exe],
-                capture_output=True, text=True, cwd=self.rundir, preexec_fn=_big_stack)
+                capture_output=True, text=True, cwd=self.rundir)
             if c.returncode:
                 raise RuntimeError("ocaml compile failed: " + c.stderr[-2000:])
             r = subprocess.run([exe], capture_output=True, text=True)
